@@ -417,6 +417,10 @@ pub struct System {
     /// Index (0 = environment, 1 + i = worker i) of the component that acted last.
     pub last_component: usize,
     pub select_log: Vec<quiver_core::executor::verif::SelectRecord>,
+    /// (io configurations only) the events the last environment step consumed, in order, and
+    /// the value of `next_process_id` before it ran.
+    pub last_env_input: Vec<Evt>,
+    pub last_env_next_pid: ProcessId,
 }
 
 pub fn builtin_registry(io: bool) -> quiver_core::builtins::BuiltinRegistry<E> {
@@ -515,6 +519,8 @@ impl System {
             steps_worker: 0,
             last_component: 0,
             select_log: vec![],
+            last_env_input: vec![],
+            last_env_next_pid: 0,
         };
         if sys.cfg.request_early && has_entry {
             sys.issue_request();
@@ -642,6 +648,15 @@ impl System {
                     self.budgets[i].set(*v);
                 }
                 self.note_spawns(vis);
+                if self.cfg.io {
+                    self.last_env_next_pid = self.env.verif_view().next_process_id;
+                    self.last_env_input.clear();
+                    for (i, v) in vis.iter().enumerate() {
+                        for evt in self.evtq[i].borrow().iter().take(*v) {
+                            self.last_env_input.push(evt.clone());
+                        }
+                    }
+                }
                 let r = catch_unwind(AssertUnwindSafe(|| self.env.step()));
                 for b in &self.budgets {
                     b.set(0);
